@@ -36,6 +36,8 @@ def literal(x):
     if isinstance(x, decimal.Decimal):
         return {'py': f"Decimal('{x}')"}
     if isinstance(x, float):
+        if type(x) is not float and type(x).__module__.startswith('elementpath'):
+            return {'py': f"XsFloat('{float(x)!r}')"}
         return {'py': f"float('{x!r}')"}
     if isinstance(x, (list, tuple)):
         return {'py': repr(type(x)([unlit_repr(i) for i in x]))} if False else {'py': repr(x)}
@@ -45,7 +47,8 @@ def literal(x):
 def unliteral(d):
     import decimal
     from decimal import Decimal  # noqa
-    return eval(d['py'], {'Decimal': decimal.Decimal, 'float': float, 'inf': float('inf'), 'nan': float('nan')})
+    from elementpath.datatypes import Float as XsFloat
+    return eval(d['py'], {'Decimal': decimal.Decimal, 'float': float, 'inf': float('inf'), 'nan': float('nan'), 'XsFloat': XsFloat})
 
 
 def _run_one(args):
